@@ -16,6 +16,28 @@ CLAIMS = {
     note="Trusted: Lean kernel (axioms printed in evidence), harness AST→scope-tree dump and HIR walk, the generator's coverage of scope shapes. "
          "The typer's own scoping (LocalTypeEnv) is exercised only through the acceptance oracle.",
     technique="Lean 4 proof (structural induction over the nested AST) + differential correspondence with the Rust resolver"),
+ "C10": dict(
+    category="proof",
+    text="Lean theorems over a model of the integer-literal pipeline and of the operator mapping, quantified over the tables regenerated from the "
+         "sources on every run (Gen/OpMap, Gen/NumTypes, Gen/ToString). Proved for all digit strings, all widths, both signednesses, all operand "
+         "values: lit_accept_iff (a literal is accepted iff its written value is in the type's range, on both Rust parser paths), lit_accept_value / "
+         "lit_value (the value rebuilt by tast_builder, printed with to_string and read back by Go at the declared type - octal rule and "
+         "representability included - is the written number), lit_reject_kind, opmap_faithful_bin / opmap_faithful_un (the Go operator selected by "
+         "compile.rs and spelled by go_pprint.rs, on two's-complement words of any sized integer type, denotes the source operator's meaning on "
+         "mathematical integers: wrap modulo 2^N, truncated division incl. minInt / -1, division-by-zero failure, signed/unsigned ordering), the "
+         "spec-pinning lemmas wrap_mod, wrap_signed_range, div_trunc, div_min_neg_one, div_zero_panics, cmp_signed, cmp_unsigned, to_string_int "
+         "(%d rendering reads back), and decide-theorems over the generated tables (num_types_consistent, lit_forms_consistent, pat_forms_consistent, "
+         "opmap_total, opmap_symbols_agree, to_string_covers, to_string_verbs_ok). Tied to the Rust by the translator and by a correspondence run "
+         "through the real pipeline: every 8-bit literal, all boundaries of the 8 integer types in every suffix form, random wide values, literal "
+         "patterns, one program per operator x type x operand shape (real Core EPrim, real goast nodes and printed text must equal the model's "
+         "prediction), plus Rust's own str::parse / to_string / wrapping_* against the model. An independent oracle evaluates every emitted operator "
+         "on all 8-bit operand pairs (boundary+random pairs for wider types) against the source meaning, with Go's constant-expression rules.",
+    design_ref="§5 C10",
+    note="Floats are validated, not proved: literal -> Core bits against an independent correctly-rounded decimal->binary conversion and Rust's parse, "
+         "printed Go literal read back, operator symbol and operand Go types; float32 'rounds every operation to single precision' rests on Go. "
+         "Trusted: Lean kernel; the reading of the Go specification in goBinInt/goConstBin/goIntToken; tools/extract.py regexes; harness program templates. "
+         "Known findings: operators on all-literal operands become Go constant expressions (overflow / zero divisor rejected by the Go compiler).",
+    technique="Lean 4 proof (induction over digit strings; BitVec/Int lemmas; decide over regenerated tables) + translator + differential correspondence + spec oracle"),
  "C15": dict(
     category="proof",
     text="Lean theorems over a state machine of the artefact protocol (sources, .interface and .core files, ops edit/check/build/link/"
